@@ -32,6 +32,8 @@ def types(dim, ph):
         return [([x + ph, y], r, a) for x in (0.5, 2.2) for y in (0.5, 2.2) for (r, a) in ((1.0, [0.5, 0.5]), (1.05, [0.0, 0.0]), (0.7, [0.0, -0.9]))]
     if dim == "2x":  # strongly disparate radii: a tiny droplet between two big overlapping ones
         return [([x + ph, y], r) for x in (0.5, 2.2, 4.1) for y in (0.5, 2.2, 4.1) for r in (0.01, 2.0)]
+    if dim in ("1xc", "1xC"):  # disparate radii on a line; run_case adds 9 (70) far-away fillers: more droplets than any small-collection threshold
+        return [([p + ph], r) for p in (-6.0, 0.0, 4.0, 7.0, 10.5) for r in (0.3, 3.0, 5.0)]
     if dim == "1o":  # the 1-d lattice far away from the coordinate origin: |position| / separation ~ 1e8
         return [([FAR + p + ph], r) for p in (0.5, 1.5, 2.75, 4.0, 5.25) for r in (0.375, 0.75, 1.25)]
     if dim == "2o":
@@ -46,7 +48,14 @@ def types(dim, ph):
 FAR = 2.0**27  # 1.3e8, exactly representable; lattice offsets below are dyadic, so every position is exact
 
 
+def fillers(dim):
+    n = {"1xc": 9, "1xC": 70}[dim]
+    return [([200.0 + 30.0 * k], 1.0 + 0.25 * (k % 7)) for k in range(n)]
+
+
 def metrics(dim):
+    if dim in ("1xc", "1xC"):
+        return [None]
     if dim in ("1o", "2o"):
         n = 1 if dim == "1o" else 2
         org = [FAR, -FAR][:n]
@@ -64,8 +73,8 @@ def metrics(dim):
 def blocks(tier, seed):
     ph = [0.0, 0.05, 0.11][seed % 3]
     out = []
-    for dim in (1, 2, 3, "2x", "2p", "1o", "2o"):
-        nmax = 4 if (tier == "thorough" and dim == 1) else 3
+    for dim in (1, 2, 3, "2x", "2p", "1o", "2o", "1xc", "1xC"):
+        nmax = 4 if ((tier == "thorough" and dim == 1) or dim == "1xc") else (2 if dim == "1xC" else 3)
         for gi, g in enumerate(metrics(dim)):
             for md in MIND:
                 nt = len(types(dim, ph))
@@ -94,6 +103,10 @@ def cases(block):
         return
     f = block["first"]
     for n in range(1, nmax + 1):
+        if dim == "1xc" and n == 4:  # four core members: unordered selections of distinct types
+            for rest in itertools.combinations(range(f + 1, len(T)), 3):
+                yield dict(base, members=[f] + list(rest))
+            continue
         for rest in itertools.product(range(len(T)), repeat=n - 1):
             yield dict(base, members=[f] + list(rest))
 
@@ -113,16 +126,23 @@ def run_case(case, ctx):
         spec = [(p, r) for p, r, a in spec]
         ctx.count("perturbed-members")
     else:
+        if dim in ("1xc", "1xC"):
+            spec = spec + fillers(dim)
+            ctx.count("emulsions-with-more-than-8-droplets")
         drops = [SphericalDroplet(np.array(p, float), r) for p, r in spec]
     grid = geom.make_grid(g) if g else None
     n = len(drops)
     tags = {"metric": "none" if g is None else "".join("p" if p else "n" for p in g["periodic"])}
     # reference distances
     D = np.zeros((n, n))
-    for i in range(n):
-        for j in range(n):
-            if i != j:
-                D[i, j] = geom.point_dist(g, spec[i][0], spec[j][0])
+    if g is None and n > 8:
+        P = np.array([p for p, _ in spec], float)
+        D = np.sqrt(((P[:, None, :] - P[None, :, :]) ** 2).sum(axis=-1))
+    else:
+        for i in range(n):
+            for j in range(n):
+                if i != j:
+                    D[i, j] = geom.point_dist(g, spec[i][0], spec[j][0])
     Rs = np.array([r for _, r in spec])
     S = D - Rs[:, None] - Rs[None, :]
     np.fill_diagonal(S, 0.0)
@@ -137,9 +157,10 @@ def run_case(case, ctx):
     ok = Ms.shape == (n, n) and np.allclose(Ms, Ms.T, rtol=0, atol=0) and np.all(np.diag(Ms) == 0) and np.allclose(Ms, S, rtol=1e-12, atol=1e-12)
     ctx.check("C10.matrix", bool(ok), {"got": Ms, "want": S, "subtract_radius": True}, tags)
     # --- overlap predicate ------------------------------------------------
+    ncore = len(case["members"]) if dim in ("1xc", "1xC") else n  # filler-filler pairs are all alike: not queried one by one
     for i in range(n):
         for j in range(n):
-            if i != j and abs(S[i, j]) > TOL:
+            if i != j and abs(S[i, j]) > TOL and (i < ncore or j < ncore):
                 ov = drops[i].overlaps(drops[j], grid=grid)
                 ctx.op()
                 ctx.check("C10.overlap-iff", bool(ov) == bool(S[i, j] < 0), {"i": i, "j": j, "surface": S[i, j], "overlaps": bool(ov)}, tags)
@@ -286,4 +307,4 @@ def run_random_sym(case, ctx):
 
 def expected_positive(tier):
     return ["C10.separated", "C10.identity-order", "C10.reason", "C10.largest-survives", "C10.idempotent", "C10.matrix", "C10.overlap-iff",
-            "C10.neighbors", "C10.random-in-range", "some-removed", "tied-largest", "random-overlap-removed", "random-on-symmetric-grid", "perturbed-members"]
+            "C10.neighbors", "C10.random-in-range", "some-removed", "tied-largest", "random-overlap-removed", "random-on-symmetric-grid", "perturbed-members", "emulsions-with-more-than-8-droplets"]
